@@ -54,10 +54,10 @@ type Spec struct {
 
 // Identity is what one completed run presented to the outside.
 type Identity struct {
-	Tokens []string          `json:"tokens"`           // distinct token values seen on captured events
-	Events int               `json:"events"`           // number of captured events
-	Items  map[string]string `json:"items"`            // "ssh" host key, "ftp"/"smtp"/"ldap" cert DER, "agent" public key (hex)
-	Errs   map[string]string `json:"errs,omitempty"`   // per item: why it could not be observed
+	Tokens []string          `json:"tokens"`         // distinct token values seen on captured events
+	Events int               `json:"events"`         // number of captured events
+	Items  map[string]string `json:"items"`          // "ssh" host key, "ftp"/"smtp"/"ldap" cert DER, "agent" public key (hex)
+	Errs   map[string]string `json:"errs,omitempty"` // per item: why it could not be observed
 	Notes  []string          `json:"notes,omitempty"`
 }
 
